@@ -68,10 +68,40 @@ def mutants() -> str:
     return '\n'.join(out)
 
 
+def mutation() -> str:
+    rp = os.path.join(VERIF, 'tools', 'mutation_results.jsonl')
+    if not os.path.exists(rp):
+        return '(no campaign results yet)'
+    tri = json.load(open(os.path.join(VERIF, 'tools', 'mutation_triage.json')))
+    latest = {}
+    for ln in open(rp):
+        if ln.strip():
+            r = json.loads(ln)
+            latest[(r['id'], r['prop'])] = r
+    per = {}
+    for r in latest.values():
+        d = per.setdefault((r['file'].replace('src/srctools/', ''), r['prop']), {'n': 0, 'tests-killed': 0, 'CAUGHT': 0, 'MISSED': 0, 'broken': 0})
+        d['n'] += 1
+        d[r['status']] = d.get(r['status'], 0) + 1
+    out = ['| file | judged by | mutants | noticed by the repository\'s tests | survive the tests | of those caught by a check | missed | broken build |', '|---|---|---|---|---|---|---|---|']
+    for (f, p), d in sorted(per.items()):
+        surv = d['CAUGHT'] + d['MISSED']
+        out.append(f"| {f} | {p} | {d['n']} | {d['tests-killed']} | {surv} | {d['CAUGHT']} | {d['MISSED']} | {d['broken']} |")
+    out.append('')
+    out.append('| missed mutant | site | change | verdict | why |')
+    out.append('|---|---|---|---|---|')
+    for r in sorted(latest.values(), key=lambda r: (r['file'], r['line'])):
+        if r['status'] != 'MISSED':
+            continue
+        v = tri.get(r['id'], ['untriaged', ''])
+        out.append(f"| {r['id']} | {r['file'].replace('src/srctools/', '')}:{r['line']} | {esc(r['desc'])}: `{esc(r.get('new_line', ''))}` | {v[0]} | {esc(v[1])} |")
+    return '\n'.join(out)
+
+
 def main():
     p = os.path.join(VERIF, 'DESIGN.md')
     s = open(p).read()
-    for name, fn in (('findings', findings), ('seeded', seeded), ('mutants', mutants)):
+    for name, fn in (('findings', findings), ('seeded', seeded), ('mutants', mutants), ('mutation', mutation)):
         pat = re.compile(rf'(<!-- AUTO:{name} -->\n).*?(<!-- /AUTO:{name} -->)', re.S)
         if not pat.search(s):
             print('marker missing:', name)
